@@ -1,5 +1,7 @@
 import ErgoVerif.Lemmas.Ref
 import ErgoVerif.Model.Registry
+import ErgoVerif.Model.RegRace
+import ErgoVerif.Generated.RegRace
 /-!
 # C06 — registry integrity: unique identities, complete release on termination
 
@@ -66,5 +68,103 @@ open ErgoVerif.Registry in
 /-- non-vacuity: three racing claimants, one winner -/
 example : ∃ c, Reach c ∧ c.n = 3 ∧ c.okEver = 1 ∧ c.err = 2 :=
   ⟨_, ⟨[.newClaim, .newClaim, .newClaim, .cas, .cas, .store, .cas, .store, .assign, .store], rfl⟩, by decide⟩
+
+/-! ### RegisterName by a third party racing with the termination of the process -/
+section RegRace
+open ErgoVerif.RegRace
+
+/-- full statement, parametric in the code shape: whatever the interleaving of RegisterName's steps with the
+terminator's, once both are done the name table holds no entry for the terminated process -/
+def C06_register_vs_termination_full (rc : Bool) : Prop :=
+  ∀ ls c, RegRace.run rc RegRace.init ls = some c → (c.r = .doneOk ∨ c.r = .doneErr) → c.t = .done → c.inTable = false
+
+/-- the code before the repair of D33 (no second look at the process): claim · the process terminates, its
+unregisterProcess finds neither `registered` nor a name · table insert: the name is held by a dead process for ever.
+Kept as a regression statement. -/
+theorem C06_register_vs_termination_before_fix : ¬ C06_register_vs_termination_full false := by
+  intro h
+  have := h [.rStep, .tStep, .tStep, .tStep, .rStep, .rStep, .rStep]
+    ⟨false, true, true, true, false, .doneOk, .done⟩ (by decide) (Or.inl rfl) rfl
+  simp at this
+
+namespace RegRaceProof
+
+/-- the inductive invariant of the race with the second look, as a decidable predicate -/
+def good (c : Cfg) : Bool :=
+  ((c.t == .markDead) == c.alive) &&
+  (!(c.r == .checkAlive || c.r == .cas) || (!c.registered && !c.inTable && !c.nameSet)) &&
+  (!(c.r == .store) || (c.registered && !c.inTable && !c.nameSet)) &&
+  (!(c.r == .setName) || (c.registered && c.inTable && !c.nameSet)) &&
+  (!(c.r == .recheck || c.r == .doneOk) || (c.registered && c.nameSet)) &&
+  (!(c.r == .doneErr) || !c.inTable) &&
+  (!(c.r == .doneOk) || ((c.t != .del || c.saw) && (c.t != .done || !c.inTable))) &&
+  (!(c.t == .markDead || c.t == .readReg) || !c.saw) &&
+  (!c.saw || c.registered)
+
+def allCfgs : List Cfg :=
+  [true, false].flatMap fun a => [true, false].flatMap fun b => [true, false].flatMap fun c => [true, false].flatMap fun d =>
+  [true, false].flatMap fun e =>
+  [RPc.checkAlive, .cas, .store, .setName, .recheck, .doneOk, .doneErr].flatMap fun r =>
+  [TPc.markDead, .readReg, .del, .done].map fun t => ⟨a, b, c, d, e, r, t⟩
+
+theorem all_mem (c : Cfg) : c ∈ allCfgs := by
+  obtain ⟨a, b, c, d, e, r, t⟩ := c
+  simp only [allCfgs, List.mem_flatMap, List.mem_map]
+  exact ⟨a, by cases a <;> simp, b, by cases b <;> simp, c, by cases c <;> simp, d, by cases d <;> simp,
+    e, by cases e <;> simp, r, by cases r <;> simp, t, by cases t <;> simp, rfl⟩
+
+def stepOk (c : Cfg) (l : Lbl) : Bool :=
+  !good c || (match RegRace.step true c l with | some c' => good c' | none => true)
+
+theorem step_good_all : (allCfgs.all fun c => stepOk c .rStep && stepOk c .tStep) = true := by decide +kernel
+
+theorem step_good (c c' : Cfg) (l : Lbl) (h : good c = true) (hs : RegRace.step true c l = some c') : good c' = true := by
+  have := List.all_eq_true.mp step_good_all c (all_mem c)
+  simp only [Bool.and_eq_true] at this
+  cases l with
+  | rStep => have h1 := this.1; simp only [stepOk, h, hs, Bool.not_true, Bool.false_or] at h1; exact h1
+  | tStep => have h1 := this.2; simp only [stepOk, h, hs, Bool.not_true, Bool.false_or] at h1; exact h1
+
+theorem run_good : ∀ (ls : List Lbl) (c c' : Cfg), good c = true → RegRace.run true c ls = some c' → good c' = true := by
+  intro ls
+  induction ls with
+  | nil => intro c c' h hr; simp [RegRace.run] at hr; subst hr; exact h
+  | cons l ls ih =>
+    intro c c' h hr
+    simp only [RegRace.run] at hr
+    cases hs : RegRace.step true c l with
+    | none => simp [hs] at hr
+    | some c1 => simp [hs] at hr; exact ih c1 c' (step_good c c1 l h hs) hr
+
+theorem final_all : (allCfgs.all fun c => !(good c && (c.r == .doneOk || c.r == .doneErr) && c.t == .done) || !c.inTable) = true := by
+  decide +kernel
+
+end RegRaceProof
+
+/-- with the second look at the process the statement holds for every interleaving -/
+theorem C06_register_vs_termination_with_recheck : C06_register_vs_termination_full true := by
+  intro ls c hr hdone ht
+  have hg := RegRaceProof.run_good ls RegRace.init c (by decide) hr
+  have := List.all_eq_true.mp RegRaceProof.final_all c (RegRaceProof.all_mem c)
+  have hd : (c.r == .doneOk || c.r == .doneErr) = true := by
+    rcases hdone with h | h <;> simp [h]
+  have htd : (c.t == .done) = true := by simp [ht]
+  simp only [hg, hd, htd, Bool.and_self, Bool.not_true, Bool.false_or, Bool.not_eq_true'] at this
+  exact this
+
+/-- **Registration vs termination, for the code as it is** (`Gen.RegRace.recheckAliveAfterStore`, regenerated from
+node.RegisterName): a name claimed for a process that terminates meanwhile is never left in the table. -/
+theorem C06_register_vs_termination : C06_register_vs_termination_full ErgoVerif.Gen.RegRace.recheckAliveAfterStore := by
+  have h : ErgoVerif.Gen.RegRace.recheckAliveAfterStore = true := by decide
+  rw [h]
+  exact C06_register_vs_termination_with_recheck
+
+/-- non-vacuity: the registration completes first, the termination then releases the name; and the other way round
+the registration is refused -/
+example : RegRace.run true RegRace.init [.rStep, .rStep, .rStep, .rStep, .rStep, .tStep, .tStep, .tStep] =
+    some ⟨false, true, false, true, true, .doneOk, .done⟩ := by decide
+example : (RegRace.run true RegRace.init [.tStep, .rStep, .tStep, .tStep]).map (·.r) = some .doneErr := by decide
+
+end RegRace
 
 end ErgoVerif.Props.C06
